@@ -404,6 +404,7 @@ func Run(o *corr.Out) {
 	}
 	if want("close") {
 		famClose(o, 6*mul)
+		famServe(o)
 	}
 }
 
@@ -459,6 +460,15 @@ func probe(o *corr.Out, sc *scenario, oracle string, needHandlersDone bool) {
 	}
 }
 
+// rawInvoke builds the bytes of an invoke + one message + close-send for stream 1, as a client writes them.
+func rawInvoke(idx int, prog string) []byte {
+	var b []byte
+	b = drpcwire.AppendFrame(b, drpcwire.Frame{Data: []byte(rpcName(idx, prog)), ID: drpcwire.ID{Stream: 1, Message: 1}, Kind: drpcwire.KindInvoke, Done: true})
+	b = drpcwire.AppendFrame(b, drpcwire.Frame{Data: Payload(idx, 1, 0, 3), ID: drpcwire.ID{Stream: 1, Message: 2}, Kind: drpcwire.KindMessage, Done: true})
+	b = drpcwire.AppendFrame(b, drpcwire.Frame{ID: drpcwire.ID{Stream: 1, Message: 3}, Kind: drpcwire.KindCloseSend, Done: true})
+	return b
+}
+
 // pumpRandom drives the manual transport choosing among the enabled steps at random (recorded).
 func pumpRandom(sc *scenario, r interface{ Intn(int) int }) {
 	for i := 0; i < 3000; i++ {
@@ -499,14 +509,80 @@ func famUpload(o *corr.Out, n int) {
 	}
 }
 
+// famLate: packets of RPC n that are still in the transport when RPC n+1 begins (the client closed
+// or soft-cancelled RPC n while the server was still sending) are delivered only after RPC n+1 is
+// under way.  They must be dropped: RPC n+1 sees only its own messages.
+func famLate(o *corr.Out, n int) {
+	r := o.Rand
+	for it := 0; it < n; it++ {
+		soft := r.Intn(2) == 0
+		sc := &scenario{cfg: Config{Soft: soft}, class: "late"}
+		sc.do("flow!0")
+		late := 1 + r.Intn(3)
+		sc.do(fmt.Sprintf("new!n1!1!r1.s%d:%d.rA.x!1", late, []int{1, 9, 3000}[r.Intn(3)]))
+		sc.do("snd!s1.0!1!0!2")
+		// client → server moves, server → client is held back
+		half := func() {
+			for i := 0; i < 200; i++ {
+				a, b := sc.w.A.Status(), sc.w.B.Status()
+				switch {
+				case a.WriteParked:
+					sc.do("ack!A")
+				case b.WriteParked:
+					sc.do("ack!B")
+				case b.Inbound > 0:
+					sc.do("del!B!-1")
+				default:
+					return
+				}
+			}
+		}
+		half()
+		if soft && r.Intn(2) == 0 {
+			sc.do("can!1")
+		} else {
+			sc.do("clo!x1!1")
+		}
+		half()
+		unary := r.Intn(2) == 0
+		if unary {
+			sc.do("inv!u2!2!r1.s1:4.x!1!2")
+		} else {
+			sc.do("new!n2!2!r1.s2:4.rA.x!2")
+			sc.do("snd!s2.0!2!0!1")
+			sc.do("rcv!r2.0!2")
+		}
+		half()
+		// now the late packets of rpc 1 (and the answers of rpc 2) reach the client
+		pumpAll(sc)
+		if !unary {
+			sc.do("rcv!r2.1!2")
+			pumpAll(sc)
+			sc.do("clo!x2!2")
+			pumpAll(sc)
+		}
+		res := sc.results()
+		want := map[bool]string{true: "u2", false: "r2.0"}[unary]
+		if got := res[want]; got != "ok:2/2/0/4" {
+			o.Oracle("C02:isolation", sc.request(), fmt.Sprintf("%s=%q (want the rpc's own first response ok:2/2/0/4)", want, got))
+		} else {
+			o.OracleOK("C02:isolation")
+		}
+		probe(o, sc, "C06:probe-completes", true)
+		finish(o, sc)
+	}
+}
+
 func famProbe(o *corr.Out, n int) {
 	r := o.Rand
 	famUpload(o, n/3+1)
+	famWaitingInvoke(o)
+	famLate(o, n/4+2)
 	type cs struct {
-		sends   int
-		cls     bool
-		recvs   int
-		end     string
+		sends int
+		cls   bool
+		recvs int
+		end   string
 	}
 	var grid []cs
 	for _, s := range []int{0, 1, 3} {
@@ -916,11 +992,15 @@ func famClose(o *corr.Out, n int) {
 		acts := workload(r)
 		cfg := configs[r.Intn(len(configs))]
 		ev := events[r.Intn(len(events))]
+		lazy := r.Intn(2) == 0
 		for at := 0; at < 60; at++ {
 			if at > 0 && r.Intn(3) != 0 && !o.Thorough {
 				continue
 			}
 			sc := &scenario{cfg: cfg, class: "close"}
+			if lazy {
+				sc.do("lazy!1")
+			}
 			if !runWithEvent(sc, acts, at, ev) {
 				finish(o, sc)
 				break
